@@ -15,7 +15,7 @@ CLAIMED = {
             "fast path's four scanning loops shows every byte it copies verbatim is a byte the general parser leaves "
             "unchanged; path-signature, forbidden host/domain, scheme-character, delimiter and special-scheme tables "
             "(incl. the perfect hash) equal the Standard's sets for all 256 bytes; the parser's state switch is "
-            "exhaustive. The transition logic for every string is a value-level matter and is not decided. Also: the parser's direct failure exits fail under the flag the Standard names (atSignSeen for the empty authority); the transition relation of the state machine (which state can follow which), extracted from the CFG of every instantiation, equals the Standard's — the conditions under which each transition is taken remain value-level.",
+            "exhaustive. The transition logic for every string is a value-level matter and is not decided. Also: the parser's direct failure exits fail under the flag the Standard names (atSignSeen for the empty authority); the transition relation of the state machine (which state can follow which), extracted from the CFG of every instantiation, equals the Standard's, and so does the set of URL components each state sets — the conditions under which each transition is taken remain value-level.",
             "table algebra + byte-domain abstract interpretation of scanning loops + CFG state-machine graph",
             "DESIGN.md §5 C01", "partial: table/shortcut agreement only"),
     "C03": ("other",
@@ -45,7 +45,7 @@ CLAIMED = {
             "Decides the structural premises: stable sort; the comparator's two UTF-8->UTF-16 decoders are mirror "
             "images; list syntax bytes (& = + %) are in the serializer's encode set, key and value are both decoded, "
             "'+' decodes to space; C wrappers delegate by name (C17). List-model behaviour over operation sequences "
-            "is not decided. Also: the form-urlencoded decoder copies a cursor byte only after a test on the cursor as it stands and writes ' ' only for '+'.",
+            "is not decided. Also: the form-urlencoded decoder copies a cursor byte only after a test on the cursor as it stands and writes ' ' only for '+'; set() overwrites the first and erases the later pairs on every path; compaction predicates capture no view argument; each lookup compares `first` with the name and `second` with the value (from the instantiated generic-lambda bodies).",
             "resolved-callee query + twin-skeleton comparison + table algebra",
             "DESIGN.md §5 C12", "partial"),
     "C14": ("other",
@@ -79,7 +79,7 @@ CLAIMED = {
             "every operation of the state variable, single writer, every table reader reached only through call sites "
             "dominated by a successful readiness check (must-dataflow + call-graph propagation), atomic limit touched "
             "only by its accessors, and no other writable static state (writes through reference parameters "
-            "included). The spin-wait timeout (liveness) is not decided.",
+            "included). One genuine defect is reported as a known finding (F19: a waiter whose spin budget runs out returns false while initialisation is still in progress).",
             "CFG dominance / must-dataflow of guard facts + who-writes and call-graph queries + parameter-mod summaries",
             "DESIGN.md §5 C13", "relies on the C++20 memory model's release/acquire guarantee"),
     "C19": ("other",
